@@ -1111,4 +1111,163 @@ Section RefineTxn.
     - subst e'. unfold w_out. cbn [w_gen]. split; [exact Hoid|]. split; [lia|]. split; reflexivity.
   Qed.
 
+  Lemma repl_wsim c g s h q repl sort upsert :
+    wrel c g s h ->
+    w_out (chg (BReplace q repl sort upsert)) c g s h
+      (t_replace matchf applyf extractf (open_w c g h) h q repl sort upsert now)
+      (s_repl_core s h q repl sort upsert).
+  Proof.
+    intros [Hcn [Hoid [Hinv [Hid Hlt]]]]. unfold s_repl_core, t_replace. rewrite Hcn, Hoid.
+    cbn [open_w w_ns w_gen w_oplog w_clock].
+    set (n0 := ns_or_new c h) in *.
+    pose proof (sim_replace matchf n0 (g_did g) q repl sort Hinv Hlt) as Hsim.
+    pose proof (s_replace_no_upsert (abs_coll n0) q repl sort) as Hnoup.
+    pose proof (s_replace_unchanged matchf (abs_coll n0) q repl sort) as Hunch.
+    destruct (coll_replace matchf n0 (g_did g) q repl sort) as [ns' [r|e]] eqn:Hcu;
+      destruct (s_replace matchf (abs_coll n0) q repl sort) as [[sc' sr]|e'];
+      cbn [out_rel] in Hsim; try contradiction.
+    - destruct Hsim as [Habs [Hm [Hmd Hup]]].
+      specialize (Hnoup sc' sr eq_refl). specialize (Hunch sc' sr eq_refl).
+      destruct (coll_replace_inv matchf _ _ _ _ _ _ _ Hinv Hid Hlt Hcu) as [Hinv' [Hid' Hlt']].
+      destruct (r_matched r) as [|m0 mr] eqn:Hrm.
+      + rewrite <- Hm. cbn [map]. cbn [g_did g_oid].
+        assert (Hr : r = empty_result).
+        { apply (coll_replace_inl matchf) in Hcu.
+          destruct Hcu as [[_ [_ Hr]]|[old [rest [repl' [ixs [_ [_ [_ [_ Hmm]]]]]]]]].
+          - exact Hr.
+          - rewrite Hmm in Hrm. discriminate. }
+        destruct upsert.
+        * subst sc'.
+          pose proof (sim_upsert matchf applyf extractf ns' (g_did g + 1) q (Some repl) None []
+                       (gen_oid (g_oid g)) now Hinv' Hlt') as Hs2.
+          destruct (coll_upsert matchf applyf extractf ns' (g_did g + 1) q (Some repl) None []
+                      (gen_oid (g_oid g)) now) as [ns'' [r2|e2]] eqn:Hcup;
+            destruct (s_upsert matchf applyf extractf now (abs_coll ns') q (Some repl) None []
+                        (gen_oid (g_oid g))) as [[sc'' sr']|e2'];
+            cbn [out_rel] in Hs2; try contradiction.
+          -- destruct Hs2 as [Habs2 Hrel2].
+             destruct (coll_upsert_inv matchf applyf extractf _ _ _ _ _ _ _ _ _ _ Hinv' Hid' Hlt' Hcup)
+               as [Hinv2 [Hid2 Hlt2]].
+             destruct (coll_upsert_docs matchf applyf extractf _ _ _ _ _ _ _ _ _ _ Hcup)
+               as [d' [_ [_ Hr2]]]. subst r2. cbn [r_upserted].
+             match goal with |- context [append_all ?w1 h ?o ?l ?chs] =>
+               destruct (append_all_facts h o l w1 chs) as [F1 [F2 F3]];
+               set (wa := append_all w1 h o l chs) in * end.
+             cbn [w_ns w_gen g_oid g_did] in F1, F2, F3. clearbody wa.
+             unfold w_out. cbn [ss_colls ss_oid]. rewrite chg_ups.
+             split; [rewrite F2; reflexivity|]. split; [lia|].
+             split; [destruct Hrel2 as [R1 [R2 R3]]; split; [|split]; assumption|].
+             split.
+             ++ rewrite F1. apply (good_mono matchf (g_did g + 1 + 1)); [|lia]. split; [|split]; auto.
+             ++ rewrite F1, Habs2. reflexivity.
+          -- subst e2'. unfold w_out. cbn [w_gen ss_colls ss_oid g_did g_oid].
+             split; [reflexivity|]. split; [lia|]. split; reflexivity.
+        * subst r. cbn [r_modified r_upserted map option_map] in *. rewrite <- Hmd.
+          unfold w_out. cbn [w_gen w_ns ss_colls ss_oid g_did g_oid].
+          rewrite chg_nil by exact I.
+          split; [exact Hoid|]. split; [lia|].
+          split; [split; [|split]; auto|]. split; [split; [|split]; auto|].
+          split; [reflexivity|]. rewrite Habs. apply Hunch. symmetry. exact Hmd.
+      + rewrite <- Hm. cbn [map].
+        match goal with |- context [append_all ?w1 h ?o ?l ?chs] =>
+          destruct (append_all_facts h o l w1 chs) as [F1 [F2 F3]];
+          set (wa := append_all w1 h o l chs) in * end.
+        cbn [w_ns w_gen g_oid g_did] in F1, F2, F3.
+        assert (Htr : tres_rel (mkT (m0 :: mr) (r_modified r) None None) sr).
+        { split; [|split]; cbn [t_matched t_modified t_upserted option_map]; auto. }
+        assert (Hg : good (g_did (w_gen wa)) (w_ns wa)).
+        { rewrite F1. apply (good_mono matchf (g_did g + 1)); [|lia]. split; [|split]; auto. }
+        destruct (r_modified r) as [|x xs] eqn:Hrmod.
+        * rewrite <- Hmd. cbn [map]. unfold w_out. rewrite chg_nil by exact I.
+          cbn [ss_colls ss_oid].
+          split; [rewrite F2; exact Hoid|]. split; [lia|].
+          split; [exact Htr|]. split; [exact Hg|].
+          split; [reflexivity|]. rewrite F1, Habs. apply Hunch. symmetry. exact Hmd.
+        * rewrite <- Hmd. cbn [map]. unfold w_out. rewrite chg_cons. cbn [ss_colls ss_oid].
+          split; [rewrite F2; reflexivity|]. split; [lia|].
+          split; [exact Htr|]. split; [exact Hg|].
+          rewrite F1, Habs. reflexivity.
+    - subst e'. unfold w_out. cbn [w_gen]. split; [exact Hoid|]. split; [lia|]. split; reflexivity.
+  Qed.
+
+  Definition s_del_core (s : sstate) (h : handle) (q : doc) (sort : option doc) (skip limit : Z)
+    : sstate * (sresult + ekind) :=
+    match s_delete matchf (coll_or_new s h) q sort skip limit with
+    | inr e => (s, inr e)
+    | inl (c', sr) =>
+        match sr_matched sr with
+        | [] => (s, inl sr)
+        | _ => (mkS (sc_set (ss_colls s) h c') (ss_oid s), inl sr)
+        end
+    end.
+
+  Lemma del_wsim c g s h q sort skip limit :
+    wrel c g s h ->
+    w_out (chg (BDelete q sort skip limit)) c g s h
+      (t_delete matchf (open_w c g h) h q sort skip limit)
+      (s_del_core s h q sort skip limit).
+  Proof.
+    intros [Hcn [Hoid [Hinv [Hid Hlt]]]]. unfold s_del_core, t_delete. rewrite Hcn.
+    cbn [open_w w_ns w_gen w_oplog w_clock].
+    set (n0 := ns_or_new c h) in *.
+    pose proof (sim_delete matchf n0 q sort skip limit Hinv) as Hsim.
+    pose proof (s_delete_shape matchf (abs_coll n0) q sort skip limit) as Hshape.
+    destruct (coll_delete matchf n0 q sort skip limit) as [ns' [r|e]] eqn:Hcd;
+      destruct (s_delete matchf (abs_coll n0) q sort skip limit) as [[sc' sr]|e'];
+      cbn [out_rel] in Hsim; try contradiction.
+    - destruct Hsim as [Habs [Hm _]]. destruct (Hshape sc' sr eq_refl) as [S1 [S2 S3]].
+      destruct (coll_delete_inv matchf _ _ _ _ _ _ _ _ Hinv Hid Hlt Hcd) as [Hinv' [Hid' Hlt']].
+      match goal with |- context [append_all ?w1 h ?o ?l ?chs] =>
+        destruct (append_all_facts h o l w1 chs) as [F1 [F2 F3]];
+        set (wa := append_all w1 h o l chs) in * end.
+      cbn [w_ns w_gen g_oid g_did] in F1, F2, F3. clearbody wa.
+      assert (Htr : tres_rel (mkT (r_matched r) [] None None) sr).
+      { split; [|split]; cbn [t_matched t_modified t_upserted option_map map]; auto. }
+      assert (Hg : good (g_did (w_gen wa)) (w_ns wa)).
+      { rewrite F1. apply (good_mono matchf (g_did g)); [|lia]. split; [|split]; auto. }
+      unfold w_out. rewrite chg_del.
+      destruct (r_matched r) as [|m0 mr] eqn:Hrm.
+      + rewrite <- Hm. cbn [map]. change (0 <? len (@nil sdoc)) with false. cbv iota.
+        cbn [ss_colls ss_oid].
+        split; [rewrite F2; exact Hoid|]. split; [lia|]. split; [exact Htr|]. split; [exact Hg|].
+        split; [reflexivity|]. rewrite F1, Habs. apply S3. rewrite <- Hm. reflexivity.
+      + rewrite <- Hm. cbn [map]. rewrite len_cons_pos. cbn [ss_colls ss_oid].
+        split; [rewrite F2; exact Hoid|]. split; [lia|]. split; [exact Htr|]. split; [exact Hg|].
+        rewrite F1, Habs. reflexivity.
+    - subst e'. unfold w_out. cbn [w_gen]. split; [exact Hoid|]. split; [lia|]. split; reflexivity.
+  Qed.
+
+  Definition s_ins_core (s : sstate) (h : handle) (d : doc) : sstate * (sresult + ekind) :=
+    let '(s', r) := s_insert1 matchf s h d in
+    (s', match r with inl x => inl (mkSR [] [x] None) | inr e => inr e end).
+
+  Lemma ins_wsim c g s h d :
+    wrel c g s h ->
+    w_out (chg (BInsert d)) c g s h (t_insert matchf (open_w c g h) h d) (s_ins_core s h d).
+  Proof.
+    intros [Hcn [Hoid [Hinv [Hid Hlt]]]]. unfold s_ins_core, s_insert1, t_insert. rewrite Hcn, Hoid.
+    cbn [open_w w_ns w_gen w_oplog w_clock].
+    set (n0 := ns_or_new c h) in *.
+    pose proof (sim_insert matchf n0 (g_did g) d (gen_oid (g_oid g)) Hinv Hlt) as Hsim.
+    destruct (coll_insert matchf n0 (g_did g) d (gen_oid (g_oid g))) as [ns' [r|e]] eqn:Hci;
+      destruct (s_insert matchf (abs_coll n0) d (gen_oid (g_oid g))) as [[sc' sr]|e'];
+      cbn [out_rel] in Hsim; try contradiction.
+    - destruct Hsim as [Habs [_ [Hmod _]]].
+      destruct (coll_insert_inv matchf _ _ _ _ _ _ Hinv Hid Hlt Hci) as [Hinv' [Hid' Hlt']].
+      destruct (coll_insert_docs matchf _ _ _ _ _ _ Hci) as [d' [_ [_ Hr]]]. subst r.
+      cbn [r_modified] in *. cbn [map snd] in Hmod. rewrite <- Hmod.
+      match goal with |- context [append_all ?w1 h ?o ?l ?chs] =>
+        destruct (append_all_facts h o l w1 chs) as [F1 [F2 F3]];
+        set (wa := append_all w1 h o l chs) in * end.
+      cbn [w_ns w_gen g_oid g_did] in F1, F2, F3. clearbody wa.
+      unfold w_out. rewrite chg_cons. cbn [ss_colls ss_oid].
+      split; [rewrite F2; unfold gen_count; reflexivity|]. split; [lia|].
+      split; [split; [|split]; reflexivity|].
+      split.
+      + rewrite F1. apply (good_mono matchf (g_did g + 1)); [|lia]. split; [|split]; auto.
+      + rewrite F1, Habs. reflexivity.
+    - subst e'. unfold w_out. cbn [w_gen ss_colls ss_oid g_oid g_did].
+      split; [unfold gen_count; reflexivity|]. split; [lia|]. split; reflexivity.
+  Qed.
+
 End RefineTxn.
